@@ -2,6 +2,7 @@ import DriverLib.Util
 -- BEGIN-GENERATED-IMPORTS
 import DriverLib.C01
 import DriverLib.C04
+import DriverLib.C05
 import DriverLib.C08
 import DriverLib.C10
 import DriverLib.C11
@@ -16,6 +17,7 @@ def handlers : List (String → Json → Option R) := [
 -- BEGIN-GENERATED-HANDLERS
   Drv.C01.handle,
   Drv.C04.handle,
+  Drv.C05.handle,
   Drv.C08.handle,
   Drv.C10.handle,
   Drv.C11.handle,
